@@ -935,6 +935,7 @@ class BuiltinsMixin(object):
                         for c in g.ifs:
                             cv = self.eval(c, fr, q)[0][1]
                             t = self.truth(cv, q)
+                            cv = self.snapshot(cv, q)
                             if t is False:
                                 skip = True
                                 break
@@ -958,6 +959,7 @@ class BuiltinsMixin(object):
                 for c in g.ifs:
                     cv = self.eval(c, fr, p)[0][1]
                     t = self.truth(cv, p)
+                    cv = self.snapshot(cv, p)
                     if t is False:
                         skip = True
                         break
